@@ -1,6 +1,7 @@
 """Preprocess source code before compilation."""
 
 import ast
+import re
 
 
 # pylint: disable=invalid-name
@@ -38,12 +39,14 @@ def augment_annotations(src):
   visitor = CollectAnnotationLines()
   visitor.visit(tree)
   if visitor.annotation_ends:
-    lines = src.split("\n")
+    # [line 0, separator 0, line 1, separator 1, ...], splitting exactly where
+    # the parser does, so that the ast positions index this list.
+    lines = re.split(r"(\r\n|\r|\n)", src)
     # Insert right after the annotation (not at the end of the line), so that
     # comments, `#` inside string literals and `;`-separated statements are
     # left alone. Work backwards so that earlier offsets stay valid.
     for i, col in sorted(visitor.annotation_ends, reverse=True):
-      line = lines[i].encode("utf-8")
-      lines[i] = (line[:col] + b" = ..." + line[col:]).decode("utf-8")
-    src = "\n".join(lines)
+      line = lines[2 * i].encode("utf-8")
+      lines[2 * i] = (line[:col] + b" = ..." + line[col:]).decode("utf-8")
+    src = "".join(lines)
   return src
